@@ -52,7 +52,7 @@ fn op_eval(job: &J) -> Result<J, String> {
     let events = uplc::verif::take_builtins();
     let remaining = machine.ex_budget;
     let mut out = json!({
-        "cost": [budget.cpu - remaining.cpu, budget.mem - remaining.mem],
+        "cost": [budget.cpu.saturating_sub(remaining.cpu), budget.mem.saturating_sub(remaining.mem)],
         "remaining": [remaining.cpu, remaining.mem],
         "logs": machine.traces.iter().map(|t| t.to_string()).collect::<Vec<_>>(),
     });
@@ -63,7 +63,7 @@ fn op_eval(job: &J) -> Result<J, String> {
         Err(e) => {
             out["err"] = json!(variant_name(&format!("{e:?}")));
             let mut m = e.to_string();
-            m.truncate(300);
+            vh::util::trunc(&mut m, 300);
             out["err_msg"] = json!(m);
         }
     }
@@ -216,7 +216,7 @@ fn op_pretty(job: &J) -> Result<J, String> {
         if job["keep_text"].as_bool().unwrap_or(true) {
             let mut t = text.clone();
             if t.len() > 4000 {
-                t.truncate(4000);
+                vh::util::trunc(&mut t, 4000);
             }
             r["text"] = json!(t);
         }
@@ -250,7 +250,7 @@ fn op_pretty(job: &J) -> Result<J, String> {
                 }
                 Err(e) => {
                     let mut m = format!("{e:?}");
-                    m.truncate(300);
+                    vh::util::trunc(&mut m, 300);
                     r["parse_err"] = json!(m);
                 }
             }
@@ -289,7 +289,7 @@ fn op_decode(job: &J) -> Result<J, String> {
                 }
                 Err(e) => {
                     let mut e = e;
-                    e.truncate(120);
+                    vh::util::trunc(&mut e, 120);
                     out[$label] = json!(format!("err: {e}"));
                     None
                 }
@@ -337,7 +337,9 @@ fn op_parse(job: &J) -> Result<J, String> {
             let d: Result<Program<DeBruijn>, _> = p.try_into();
             match d {
                 Ok(d) => {
-                    out["tree"] = tj::term_to_json(&d.term);
+                    if job["tree"].as_bool().unwrap_or(true) {
+                        out["tree"] = tj::term_to_json(&d.term);
+                    }
                     out["version"] = json!([d.version.0, d.version.1, d.version.2]);
                 }
                 Err(e) => {
@@ -347,7 +349,7 @@ fn op_parse(job: &J) -> Result<J, String> {
         }
         Err(e) => {
             let mut m = format!("{e:?}");
-            m.truncate(200);
+            vh::util::trunc(&mut m, 200);
             out["program"] = json!(format!("err: {m}"));
         }
     }
@@ -365,7 +367,11 @@ fn op_data(job: &J) -> Result<J, String> {
     Ok(match uplc::plutus_data(&bytes) {
         Ok(d) => {
             let re = uplc::plutus_data_to_bytes(&d);
-            json!({"data": tj::data_to_json(&d), "reencoded": hex::encode(re)})
+            if job["tree"].as_bool().unwrap_or(true) {
+                json!({"data": tj::data_to_json(&d), "reencoded": hex::encode(re)})
+            } else {
+                json!({"data": "ok", "reencoded": hex::encode(re)})
+            }
         }
         Err(e) => json!({"err": e.to_string()}),
     })
@@ -529,7 +535,7 @@ fn main() {
                 if line.trim().is_empty() {
                     continue;
                 }
-                let job: J = match serde_json::from_str(&line) {
+                let job: J = match vh::util::parse_job(&line) {
                     Ok(j) => j,
                     Err(e) => {
                         let mut o = stdout.lock();
